@@ -63,3 +63,23 @@ From VV Require Import Gen.GenArms Spec.FwdSpec Proofs.FwdProofs.
 Theorem C18_proxy_forwards_callers_message : fwd_ops_ok = true.
 Proof. exact fwd_ops_ok_true. Qed.
 Print Assumptions C18_proxy_forwards_callers_message.
+
+(* the frontend-side server's size check and acknowledgement REGENERATED from check_msg_size / send_ack_message
+   (Gen.GenFsAck), which the model calls: a request is taken exactly when header size, version 1, not-a-reply and the
+   received size all agree; an acknowledgement is written exactly when REPLY_ACK is in force and the request asks for it;
+   its value is the handler's number, the negated OS error code, or -EINVAL for an error without one *)
+From VV Require Import Gen.GenFsAck.
+Theorem C18_size_check_regenerated : forall hs ir v sz ex,
+  fs_size_bad hs ir v sz ex = false <-> (hs = ex /\ ir = false /\ v = 1 /\ sz = ex).
+Proof. exact fs_size_bad_spec. Qed.
+Print Assumptions C18_size_check_regenerated.
+Theorem C18_ack_written_regenerated : forall ra nr, fsack_written ra nr = ra && nr.
+Proof. exact fsack_written_spec. Qed.
+Print Assumptions C18_ack_written_regenerated.
+Theorem C18_ack_values_regenerated : forall n e,
+  fsack_value_ok n = n /\ fsack_value_errno e = neg64 e /\ fsack_value_noerrno = neg64 22 /\ fsack_value_other = neg64 22.
+Proof. exact fsack_values. Qed.
+Print Assumptions C18_ack_values_regenerated.
+Theorem C18_ack_code_shape : fsack_shape_ok = true.
+Proof. exact fsack_shape_ok_true. Qed.
+Print Assumptions C18_ack_code_shape.
